@@ -16,7 +16,10 @@ Inductive case :=
 | KRange (skipped : bool)
 (* the real client's Select in stream mode from `tail` over a partition of n records; rounds: records appended in the
    gap before each request reaches the server / while it waits; delivered: what the handler received *)
-| KSelect (n : nat) (rounds : list (nat * nat)) (delivered : list nat).   (* /repo's own journal iterator: a flush right before the last look of a read-to-end *)
+| KSelect (n : nat) (rounds : list (nat * nat)) (delivered : list nat)
+(* a waiting request over a source expression that matches no partition: did it return (within time-out + slack), with how
+   many events, and did its continuation request carry the query *)
+| KEmpty (returned : bool) (nev : nat) (continues : bool).   (* /repo's own journal iterator: a flush right before the last look of a read-to-end *)
 
 Definition round_eqb (a b : list nat * nat) : bool := list_eqb Nat.eqb (fst a) (fst b) && Nat.eqb (snd a) (snd b).
 
@@ -49,6 +52,10 @@ Definition check (c : case) : bool :=
       Nat.eqb (length (dst (run code_applies_filter [] (init [] 0) (rearm_sched b1 b2)))) copied
   | KRange skipped => Bool.eqb skipped code_reloads_count_range
   | KSelect n rounds delivered => list_eqb Nat.eqb (sel_run code_select_advances STail n rounds) delivered
+  | KEmpty returned nev continues =>
+      Bool.eqb (match empty_wait_loop code_empty_waits_for_ctx 1000 with Some _ => true | None => false end) returned &&
+      Nat.eqb nev 0 &&
+      Bool.eqb (match empty_continuation code_empty_keeps_query tt with Some _ => true | None => false end) (continues || negb returned)
   end.
 
 Definition mismatches (l : list case) : list nat := mismatches_of check l.
